@@ -378,11 +378,16 @@ func (p *Persister) flushNow(ctx context.Context, batch map[string]persistData, 
 
 	defer tx.Discard()
 	for id, data := range batch {
-		err := data.storeFunc(ctx)
-		if err != nil {
-			p.logger.Err(ctx, err).
+		storeErr := data.storeFunc(ctx)
+		if storeErr != nil {
+			p.logger.Err(ctx, storeErr).
 				Str(log.ConnectorIDField, id).
 				Msg("error while saving connector")
+			if err == nil {
+				// remember the first failure: the transaction must not be
+				// committed and the callbacks must learn about it
+				err = cerrors.Errorf("error while saving connector %s: %w", id, storeErr)
+			}
 		}
 	}
 	if err == nil {
